@@ -107,7 +107,7 @@ def spec(ctx):
     hs = [Harness("c16_nary_%s_%d" % (k, n), "e1", unwind=n + 2, timeout=300,
                   clause="%s stream, %d inputs: result equals the reference for every nondeterministic content of unwritten MaybeUninit slots; no index out of range" % (k, n))
           for n in ar for k in kinds]
-    hs.append(Harness("c16_terminal_read", "e2", skeletons=list(itertools.product([0, 1], repeat=5)),
+    hs.append(Harness("c16_terminal_read", "e2", timeout=300, skeletons=list(itertools.product([0, 1], repeat=5)),
                       clause="terminal state read: all own/partner presence combinations, only initialised addends are used"))
     hs += [Harness("c16_axle_%d" % n, "e1", unwind=8, clause="Axle::new with %d terminals: every element written before the array is read out" % n) for n in (1, 2, 3, 5)]
     for name, _ in dangles:
